@@ -609,4 +609,40 @@ func runC08(c *fw.Ctx) {
 			}
 		}
 	}
+	// sibling tables whose ids extend another table's id by a suffix the disk storage might use for its own scratch
+	// names (table ids may contain dots): clearing, deleting or re-creating one table must not touch the other
+	for _, suffix := range []string{".deleted", ".new", ".table.proto.tmp", ".tmp", ".table.proto"} {
+		for vi, variant := range [][]bt.Op{
+			{{Kind: "DropRowRange", Table: tblT, All: true}},
+			{{Kind: "DeleteTable", Table: tblT}, alpha[0]},
+			{{Kind: "DeleteTable", Table: tblT}},
+		} {
+			item++
+			if !c.Mine(item) {
+				continue
+			}
+			sib := tblT + suffix
+			ops := []bt.Op{alpha[0],
+				{Kind: "CreateTable", Parent: parentI, TableID: "t" + suffix, Fams: map[string]*bt.GC{"f": nil}},
+				{Kind: "MutateRow", Table: sib, Key: []byte("a"), Muts: []bt.Mut{mset("f", "c", 1000, "sibling")}},
+				alpha[2]}
+			ops = append(ops, variant...)
+			ops = append(ops, bt.Op{Kind: "MutateRow", Table: sib, Key: []byte("b"), Muts: []bt.Mut{mset("f", "c", 1000, "after")}})
+			cs := c08Case{Segs: []c08Seg{{Ops: ops, Kill: -1}}}
+			cl, dtl := runC08Case(c, cs, stepwise)
+			c.Eval(1)
+			c.State(fw.Hash("sibling", suffix, fmt.Sprint(vi)))
+			c.Outcome("sibling-id" + suffix)
+			if cl != "" {
+				c.Violate("C08:"+cl+":sibling-id"+suffix+":"+c08Tag(cs), dtl+"\n  program: "+bt.OpsString(ops), cs, func() string {
+					cl2, _ := runC08Case(c, cs, stepwise)
+					if cl2 == "" {
+						return ""
+					}
+					return "C08:" + cl2 + ":sibling-id" + suffix + ":" + c08Tag(cs)
+				})
+			}
+		}
+	}
+
 }
